@@ -127,6 +127,9 @@ var progSpecs = []progSpec{
 	{"configure/binder", "", "cloneValue", "binder_cloneValue", ""},
 	{"configure/binder", "ViperBinder", "Set", "binder_Set", ""},
 	{"configure/binder", "ViperBinder", "SetConfig", "binder_SetConfig", ""},
+	{"app", "App", "initiate", "app_initiate", ""},
+	{"app", "App", "Run", "app_Run", ""},
+	{"container/support", "registry", "RegisterSingleton", "sreg_RegisterSingleton", ""},
 }
 
 // conversions whose single argument is passed through unchanged
@@ -152,6 +155,11 @@ func isLogging(e ast.Expr) bool {
 		return false
 	}
 	n := exprName(c.Fun)
+	for _, suf := range []string{".Fatal", ".Fatalf", ".Panic", ".Panicf"} {
+		if strings.HasSuffix(n, suf) {
+			return false // not "just logging": these do not return to the caller — kept as calls, the interpretation decides
+		}
+	}
 	return strings.Contains(n, "logger()") || strings.HasPrefix(n, "syslog.") || strings.HasPrefix(n, "log.") || strings.HasPrefix(n, "logger.")
 }
 
